@@ -237,7 +237,36 @@ func BreakJSONRule(r *R, rule, pkgPrefix, tag string) *Broken {
 	default:
 		panic("unknown rule " + rule)
 	}
+	// the offender is not always the FIRST use of the types it refers to: in one case of three an earlier message
+	// (or, for the enum rule, an earlier field of the same message) refers to the same enum / child message in a
+	// perfectly valid way — a validator that looks at each type once only would stop before the offender
+	var prior *ir.Message
+	switch tagNo(tag) % 3 {
+	case 1:
+		seen := map[string]bool{}
+		pm := &ir.Message{Name: "Prior" + tag}
+		for _, f := range bad.Fields {
+			if f.TypeName == "" || seen[f.TypeName] {
+				continue
+			}
+			seen[f.TypeName] = true
+			pm.Fields = append(pm.Fields, &ir.Field{Name: fmt.Sprintf("earlier_%d", len(pm.Fields)+1), Number: int32(len(pm.Fields) + 1), Kind: f.Kind, TypeName: f.TypeName})
+		}
+		if len(pm.Fields) > 0 {
+			prior = pm
+			b.Variant = strings.TrimSpace(b.Variant + " +earlier valid use in another message")
+		}
+	case 2:
+		if rule == "enum_number_with_custom_values" {
+			f := bad.Fields[0]
+			bad.Fields = append([]*ir.Field{{Name: "kind", Number: 9, Kind: "enum", TypeName: f.TypeName, Ann: ir.Ann{EnumEnc: "STRING"}}}, bad.Fields...)
+			b.Variant = strings.TrimSpace(b.Variant + " +earlier valid field of the same enum")
+		}
+	}
 	b.Messages = append([]*ir.Message{bad}, b.Messages...)
+	if prior != nil {
+		b.Messages = append([]*ir.Message{prior}, b.Messages...)
+	}
 	return b
 }
 
